@@ -7,9 +7,10 @@ CONSTANTS K = 2
           Versions = {1}
           Holds = {TRUE,FALSE}
           MaxClock = 1000000
-          LibFoldersInKey = FALSE
+          LibFoldersInKey = TRUE
           Beyond = {}
-          FreshLibHandles = FALSE
+          OptionValuesCompared = TRUE
+          FreshLibHandles = TRUE
 INIT Init
 NEXT Next
 VIEW View
